@@ -1507,9 +1507,12 @@ return 1;""",
                 cxx_call_list.append(pass_var)
         # end for arg in args:
 
-        # Add implied argument initialization to pre_call_code
+        # Implied argument initialization is added after the pre_call
+        # code of every call, also of the calls which leave out
+        # trailing default arguments.
+        implied_code = []
         for arg in arg_implied:
-            intent_blk = self.implied_blk(node, arg, pre_call_code)
+            intent_blk = self.implied_blk(node, arg, implied_code)
 
         need_blank = False  # needed before next debug header
         if not arg_names:
@@ -1603,7 +1606,8 @@ return 1;""",
                 PY_code.append("case %d:" % npyargs)
                 PY_code.append(1)
                 need_blank = False
-                if post_declare_len or post_parse_len or pre_call_len:
+                if post_declare_len or post_parse_len or pre_call_len \
+                   or implied_code:
                     # Only add scope if necessary.
                     # There may be declarations in these code blocks.
                     # Need to avoid error:
@@ -1630,12 +1634,13 @@ return 1;""",
                 PY_code.extend(post_parse_code[:post_parse_len])
                 need_blank = True
 
-            if pre_call_len:
+            if pre_call_len or implied_code:
                 if options.debug:
                     if need_blank:
                         PY_code.append("")
                     PY_code.append("// pre_call")
                 PY_code.extend(pre_call_code[:pre_call_len])
+                PY_code.extend(implied_code)
                 need_blank = True
             fmt.PY_call_list = call_list
 
